@@ -5,13 +5,16 @@ use crate::hist::*;
 use crate::obs::Obs;
 use crate::ops::*;
 use crate::runner::*;
-use proptest::strategy::BoxedStrategy;
+use proptest::strategy::{BoxedStrategy, Strategy};
 
+pub mod c01;
 pub mod c02;
 pub mod c03;
 pub mod c04;
 pub mod c05;
 pub mod c06;
+pub mod c07;
+pub mod c08;
 pub mod common;
 
 impl Checker for Box<dyn Checker> {
@@ -32,6 +35,8 @@ pub struct HistProp {
     pub quick: u32,
     pub thorough: u32,
     pub mk: fn(&Cfg, &World, &Obs) -> Box<dyn Checker>,
+    /// structured scenario generator mixed into the general one (weight out of 10)
+    pub extra: Option<(u32, fn(Tier) -> BoxedStrategy<History>)>,
 }
 
 pub const ENVELOPE: &str = "operating envelope of DESIGN.md section 4 (E1 magnitudes <= 1e18, E2 simulator abstraction of bank/staking/distribution, E3 trusted owner configuration, E4 slashing never leaves the hub without stake, E5 swap/oracle stubs, E6 principals)";
@@ -52,7 +57,13 @@ impl Prop for HistProp {
         ]
     }
     fn strategy(&self, tier: Tier) -> BoxedStrategy<History> {
-        history_strategy(&(self.profile)(tier), (self.cfgs)())
+        let general = history_strategy(&(self.profile)(tier), (self.cfgs)());
+        match self.extra {
+            Some((w, f)) if w > 0 => {
+                proptest::strategy::Union::new_weighted(vec![(10 - w.min(9), general), (w.min(9), f(tier))]).boxed()
+            }
+            _ => general,
+        }
     }
     fn cases(&self, tier: Tier) -> u32 {
         match tier {
